@@ -458,6 +458,13 @@ func (e *Explorer) worker() {
 					if len(so.Samples) < 3 && st.Err == nil && depth >= 1 {
 						so.Samples = append(so.Samples, st.Post.Path)
 					}
+				} else {
+					// Levels above the split are expanded by every worker but reported by worker 0 only.
+					// Monitors still see the transition (output discarded) so that a monitor carrying
+					// per-path state (closure keyed by *SNode) has it for the states of its own shard.
+					for _, m := range e.Monitors {
+						m(st, func(key, what string) {})
+					}
 				}
 				if st.Err != nil {
 					continue
